@@ -18,9 +18,15 @@
 /// Assumption ZIP-DET: reading is deterministic — the outcome of `by_name`
 /// depends only on the archive and the name (no transient I/O error), and
 /// reading never changes the archive.
+///   `listing`        = EVERY entry of the central directory in order (file name text,
+///                      decompressed content), as `extract_files`
+///                      (crates/filesystem/src/archive/import.rs:235, read) walks it by index
+///                      (`reader.inner().file().entries()` / `reader_without_entry(index)`);
+///                      duplicates and directory entries included.
 pub ghost struct ZipV {
     pub entries: Map<Seq<char>, Seq<u8>>,
     pub unreadable: Set<Seq<char>>,
+    pub listing: Seq<(Seq<char>, Seq<u8>)>,
 }
 #[verifier::external_body]
 #[verifier::reject_recursive_types(R)]
@@ -310,6 +316,18 @@ pub fn vfs_write<P: PathLike, B: BytesLike>(fs: &mut Fs, path: P, contents: B) -
         files_same_except(old(fs)@, final(fs)@, path.pv()),
         final(fs)@.dirs == old(fs)@.dirs,
         r is Ok ==> final(fs)@.files.contains_key(path.pv()) && final(fs)@.files[path.pv()] == contents.bytes(),
+{ unimplemented!() }
+
+/// R20: `vfs::create_dir_all(path)` = tokio::fs::create_dir_all (tokio-1.x src/fs/create_dir_all.rs →
+/// std::fs::DirBuilder::new().recursive(true).create: "Recursively create a directory and all of its
+/// parent components if they are missing").  Creates directories only; Ok: `path` is a directory.
+/// (Same as `vfs::create_dir_all` of prelude/files_fs.rs plus the Ok clause.)
+#[verifier::external_body]
+pub fn vfs_create_dir_all<P: PathLike>(fs: &mut Fs, path: P) -> (r: Result<()>)
+    ensures
+        final(fs)@.files == old(fs)@.files,
+        old(fs)@.dirs.subset_of(final(fs)@.dirs),
+        r is Ok ==> final(fs)@.dirs.contains(path.pv()),
 { unimplemented!() }
 
 /// R12: `$a == $b` for `$a, $b: &str` (core::str PartialEq: same characters)
